@@ -316,3 +316,209 @@ M.contract(P_MODELS + ':non_recursive', params=dict(dir_path=DESCRIBED_PATH), in
            isinstance(result, models._FilesMatcherModelForDir) and result._dir_path is dir_path
            and isinstance(result._files_generator, models._FilesGeneratorForNonRecursive)
            and result._files_selection is None and result._directory_prune is None}, raises_only=())
+
+
+# ============================================================================== populating a directory from a file list
+
+from exactly_lib.impls.types.files_source import file_maker as file_maker_mod
+from exactly_lib.impls.types.files_source.impl import file_list
+from exactly_lib.impls.types.files_source.impl.file_makers import utils as maker_utils, dir_ as dir_maker, \
+    regular as regular_maker
+from exactly_lib.impls.types.files_source.defs import ModificationType
+from exactly_lib.impls import file_properties
+from contracts.pathspec import parts_of, prefix, P0, join0
+
+P_FL = 'exactly_lib.impls.types.files_source.impl.file_list'
+P_MU = 'exactly_lib.impls.types.files_source.impl.file_makers.utils'
+
+# ---- the validator of a file name
+
+M.contract('exactly_lib.common.report_rendering.text_docs:single_line', trusted=True, returns=Any_,
+           params=dict(line_object=Any_))
+M.contract(P_FL + ':_IsValidPosixPath._err_msg', trusted=True, returns=Any_, params=dict(path=Str, header_tmpl=Str))
+M.trust('error-message renderers (text_docs.single_line, _IsValidPosixPath._err_msg, path_err_msgs.*, '
+        'file_properties.render_failure__d, FailureDetailsRenderer) return a message object (messages are outside the '
+        'property)')
+
+
+def is_valid_file_name(name):
+    """the documented condition on a file name of a FILE-LIST"""
+    return name != '' and ':' not in name and ';' not in name \
+        and not is_abs(P(name)) and '..' not in parts_of(P(name))
+
+
+M.contract(P_FL + ':_IsValidPosixPath.validate_pre_sds_if_applicable',
+           params=dict(self=Inst(file_list._IsValidPosixPath, path_str=Str), hds=Any_), returns=Opt(Any_),
+           ensures={'accepted iff not empty, no path separator, not absolute, no `..` component':
+                        lambda self, result: iff(result is None, is_valid_file_name(self.path_str))},
+           raises_only=())
+
+# ---- the place of an entry: directory / name, component by component
+
+M.contract(P_FL + ':_child_dp', params=dict(root=DESCRIBED_PATH, relative_path=Iface(PurePathI)),
+           returns=DESCRIBED_PATH,
+           ensures={'root joined with the relative path': lambda root, relative_path, result:
+           den(result.primitive) == join(den(root.primitive), den(relative_path))}, raises_only=())
+M.loop(P_FL + ':_child_dp', 0,
+       invariant=lambda _i, root, relative_path, ret_val:
+       den(ret_val.primitive) == join(den(root.primitive), prefix(den(relative_path), _i)),
+       modifies=dict(ret_val=DESCRIBED_PATH, component='local'))
+
+
+# ---- ghost log of the files made: (index of the specification, path)
+
+def _log(interp, name):
+    g = interp.st.ghost
+    if name not in g:
+        g[name] = {'n': 0}
+    return g[name]
+
+
+def _log_fn(name, field, sort):
+    return z3.Function('log.%s.%s' % (name, field), z3.IntSort(), sort)
+
+
+def _log_append(interp, name, **fields):
+    lg = _log(interp, name)
+    n = lg['n']
+    nt = to_z3(n)
+    for k, v in fields.items():
+        t = to_z3(v)
+        interp.st.assume(_log_fn(name, k, t.sort())(nt) == t)
+    lg['n'] = wrap(nt + 1)
+
+
+def _mk_log(interp, name):
+    n = interp.st.fresh_int(name + '.n')
+    interp.st.assume(n >= 0)
+    return {'n': SInt(n)}
+
+
+def made_count(ghost=None):
+    """number of FileMaker.make calls so far (proof level)"""
+    raise NotImplementedError
+
+
+def made_spec(k):
+    """index (in the file list) of the specification whose maker was called k-th"""
+    raise NotImplementedError
+
+
+def made_path(k):
+    """the path given to the k-th call of FileMaker.make"""
+    raise NotImplementedError
+
+
+M.model(made_count, lambda interp, args, kwargs: _log(interp, 'made')['n'])
+M.model(made_spec, lambda interp, args, kwargs: wrap(_log_fn('made', 'spec', z3.IntSort())(to_z3(args[0]))))
+M.model(made_path, lambda interp, args, kwargs: wrap(_log_fn('made', 'path', z3.IntSort())(to_z3(args[0]))))
+
+
+def _maker_make(interp, self, args, kwargs):
+    """FileMaker.make(path): logged; fails with HardErrorException only (proved of the makers below)"""
+    (path,) = args
+    spec = self._pv_index[0] if self._pv_index else z3.IntVal(-1)
+    _log_append(interp, 'made', spec=wrap(spec), path=interp.getattr(interp.getattr(path, 'primitive'), 'pid'))
+    if interp.st.choose(2) == 1:
+        raise PyRaise(HardErrorException(Any_.make(interp, 'error')))
+    return None
+
+
+class FileMakerI(Interface):
+    target_class = file_maker_mod.FileMaker
+    methods = {'make': Method(model=_maker_make)}
+
+
+class FileSpecI(Interface):
+    target_class = file_list.FileSpecification
+    attrs = {'name': Str, 'maker': Iface(FileMakerI)}
+
+
+def made_in_order(files, d, old, n):
+    """the first n entries of the list were made, in the listed order, each at d/name"""
+    return forall_range(0, n, lambda k: made_spec(old + k) == k
+                                        and made_path(old + k) == join0(d, P0(files[k].name)))
+
+
+M.contract(P_FL + ':Primitive.populate',
+           params=dict(self=Inst(file_list.Primitive, _files=ListOf(Iface(FileSpecI)), _describer=Any_),
+                       directory=DESCRIBED_PATH),
+           old=lambda ghost: made_count(ghost),
+           may_raise=(HardErrorException,),
+           ensures={
+               'every entry is made, in the listed order, at directory/name': lambda self, directory, old, ghost:
+               made_count(ghost) == old + len(self._files)
+               and made_in_order(self._files, den(directory.primitive), old, len(self._files)),
+           }, raises_only=())
+M.loop(P_FL + ':Primitive.populate', 0,
+       invariant=lambda _i, self, directory, old:
+       made_count() == old + _i and made_in_order(self._files, den(directory.primitive), old, _i),
+       modifies={'file': 'local', 'ghost:made': Custom(_mk_log)})
+
+# ---- FileMaker: hard errors are translated, nothing else is swallowed
+
+M.contract('exactly_lib.impls.types.files_source.file_maker:FileMaker.make__translate_hard_error',
+           params=dict(self=Iface(FileMakerI), path=DESCRIBED_PATH), returns=Opt(Any_),
+           old=lambda ghost: made_count(ghost),
+           ensures={'make is called once, on the path': lambda path, old, ghost:
+           made_count(ghost) == old + 1 and made_path(old) == den(path.primitive)},
+           raises_only=())
+
+# ---- creating (=) and modifying (+=)
+
+
+class CheckResultI(Interface):
+    target_class = file_properties.CheckResult
+    attrs = {'is_success': Bool, 'cause': Any_}
+
+
+class FileCheckI(Interface):
+    """file_properties.FilePropertiesCheck.apply(path): looks at the file system (event), gives a result"""
+    methods = {'apply': Method(returns=Iface(CheckResultI), event='check')}
+
+
+class MakerFunI(Interface):
+    """the callable of a NewFileCreator / ExistingFileModifier: does file-system work (may fail with OSError) and
+    populates (HardErrorException from nested entries)"""
+    methods = {'__call__': Method(event='do-make', may_raise=(OSError, lambda interp, o: HardErrorException(None)))}
+
+
+M.contract('exactly_lib.impls.file_properties:render_failure__d', trusted=True, returns=Any_,
+           params=dict(properties_with_neg=Any_, file_path=Any_))
+M.contract('exactly_lib.impls.types.path.path_err_msgs:line_header__primitive__path', trusted=True, returns=Any_,
+           params=dict(header=Any_, path=Any_))
+
+NEW_FILE_CREATOR = Inst(maker_utils.NewFileCreator, _maker=Iface(MakerFunI),
+                        _FILE_EXISTENCE_CHECK=Iface(FileCheckI))
+
+
+def events(trace, kind):
+    return [e for e in trace if e[0] == kind]
+
+
+M.contract(P_MU + ':NewFileCreator.make', params=dict(self=NEW_FILE_CREATOR, path=DESCRIBED_PATH),
+           raises={HardErrorException: {}},
+           ensures={'the path did not exist; it was made': lambda self, trace:
+           len(events(trace, 'check')) == 1 and not events(trace, 'check:returned')[0][2].is_success
+           and len(events(trace, 'do-make')) == 1},
+           raises_only=())
+
+
+def _refused_existing(trace):
+    return events(trace, 'check:returned')[0][2].is_success and len(events(trace, 'do-make')) == 0
+
+
+M.contract(P_MU + ':NewFileCreator._assert_is_valid_path', params=dict(self=NEW_FILE_CREATOR, path=DESCRIBED_PATH),
+           inline=True,
+           raises={HardErrorException: {'ensures': lambda trace: events(trace, 'check:returned')[0][2].is_success}},
+           ensures={'does not exist': lambda trace: not events(trace, 'check:returned')[0][2].is_success},
+           raises_only=())
+
+EXISTING_FILE_MODIFIER = Inst(maker_utils.ExistingFileModifier, _maker=Iface(MakerFunI), _file_check=Iface(FileCheckI))
+
+M.contract(P_MU + ':ExistingFileModifier.make', params=dict(self=EXISTING_FILE_MODIFIER, path=DESCRIBED_PATH),
+           raises={HardErrorException: {}},
+           ensures={'the path exists with the right type; it was modified': lambda self, trace:
+           events(trace, 'check:returned')[0][2].is_success and len(events(trace, 'do-make')) == 1},
+           # the statement: populating "fails with HARD_ERROR" -- nothing but HardErrorException may escape
+           raises_only=())
